@@ -6,6 +6,8 @@ From Frugal.proofs Require Import GenDecParams GenTables Corollaries.
 From Frugal.props Require Import Examples.
 From Frugal.proofs Require Import TwoHop UnknownProofs.
 From Frugal Require Import Unknown.
+From Frugal Require Import DisciplineChecks.
+From Frugal.proofs Require Import GenPools.
 Import ListNotations.
 
 (* after decoding a well-formed message, the holder is the concatenation, in message order, of
@@ -114,3 +116,8 @@ Proof. exact session_size. Qed.
 (* [enc_params_ok], which C11_reencoded and C11_one_hop assume, is part of [dec_params_ok] (ParamsSplit.dec_enc) *)
 Theorem C11_side_conditions : dec_params_ok = true /\ tables_ok = true.
 Proof. split; [exact dec_params_ok_holds | exact tables_ok_holds]. Qed.
+
+(* structural facts about the Go source which the hand-written model builds in (DisciplineChecks.v),
+   read from the source by the translator and re-proved on every run *)
+Theorem C11_model_assumptions : pools_ok = true.
+Proof. exact pools_ok_holds. Qed.
